@@ -48,6 +48,17 @@ CLAIMED = {
     note="Trusted: Coq kernel + vm_compute; no axioms; hand-written model of sim/_anneal_results.py after repairs D3/D4; harness. "
          "NaN values are excluded; `*=` and reverse() are not in the property's list and not modelled.",
     technique="Coq proof (invariant by induction over operation sequences) + model/implementation correspondence", ref="§5 C13"),
+ "C04": dict(
+    text="Coq theorems: the four converters preserve the value under the fixed boolean/spin correspondence for raw dicts and "
+         "models (C04_pubo_to_puso, C04_puso_to_pubo by induction over the recursive generators; C04_qubo_to_quso, C04_quso_to_qubo "
+         "for the closed forms; C04_closed_form_agrees), result-kind rule included; relabelling through the mapping preserves the "
+         "value (C04_relabel, C04_enumerated under the C14 invariant); C04_convert_solution; the exports Q, h/J and the matrix "
+         "describe the same function up to the offset (C04_Q, C04_hJ, C04_matrix). Tied to /repo by exact comparison of results, "
+         "types and error kinds, plus truth-table oracles on the implementation.",
+    note="Trusted: Coq kernel + vm_compute; no axioms; hand-written model of _conversions.py, _qubo.py, _quso.py, _qubomatrix.py, "
+         "_qusomatrix.py (after repair D7); harness. The converters multiply by float constants: exact on dyadic coefficients only, "
+         "which is what the correspondence generates. to_* of PUBO/PUSO/PCBO/PCSO are covered by C01.",
+    technique="Coq proof (induction over keys / term lists) + model/implementation correspondence", ref="§5 C04"),
 }
 NA_REASON = "check not built yet in this round; see DESIGN.md §8 (order of work)"
 
